@@ -199,8 +199,9 @@ func c17narrow(c *core.Ctx) {
 	type scen struct {
 		writers int
 		each    int
-		roll    int // bytes pushed through the out ring first (cursor position)
-		size    int // payload size of the concurrent messages
+		roll    int  // bytes pushed through the out ring first (cursor position)
+		size    int  // payload size of the concurrent messages
+		ping    bool // a PINGREQ arrives on the connection at the same time (its answer is one more producer)
 	}
 	var scs []scen
 	rolls := []int{0, 16384 - 10}
@@ -209,9 +210,12 @@ func c17narrow(c *core.Ctx) {
 	}
 	for _, roll := range rolls {
 		for _, size := range []int{1, 100} {
-			scs = append(scs, scen{2, 1, roll, size}, scen{2, 2, roll, size})
+			scs = append(scs, scen{2, 1, roll, size, false}, scen{2, 2, roll, size, false})
+			if size == 100 && (roll > 0 || c.Thorough()) {
+				scs = append(scs, scen{1, 1, roll, size, true})
+			}
 			if c.Thorough() {
-				scs = append(scs, scen{3, 1, roll, size})
+				scs = append(scs, scen{3, 1, roll, size, false}, scen{2, 1, roll, size, true})
 			}
 		}
 	}
@@ -224,6 +228,9 @@ func c17narrow(c *core.Ctx) {
 		}
 		sc := sc
 		name := fmt.Sprintf("peer writers=%d each=%d preroll=%d payload=%d", sc.writers, sc.each, sc.roll, sc.size)
+		if sc.ping {
+			name += " +PINGREQ"
+		}
 		body := func() {
 			service.VerifResetGlobals()
 			message.VerifSetPacketIDCounter(0)
@@ -282,6 +289,10 @@ func c17narrow(c *core.Ctx) {
 			}
 			rd.Take()
 			vsched.Mark()
+			if sc.ping {
+				// the peer answers it from its processor goroutine
+				sconn.Write([]byte{0xC0, 0x00})
+			}
 			for wi := 0; wi < sc.writers; wi++ {
 				wi := wi
 				vsched.Go(fmt.Sprintf("writer%d", wi), func() {
@@ -305,7 +316,12 @@ func c17narrow(c *core.Ctx) {
 				return
 			}
 			next := map[int]int{}
+			pings := 0
 			for _, p := range rd.Take() {
+				if p.Type == refcodec.PINGRESP && sc.ping {
+					pings++
+					continue
+				}
 				if p.Type != refcodec.PUBLISH {
 					vsched.Failf("unexpected %s on the stream", p)
 					return
@@ -336,10 +352,18 @@ func c17narrow(c *core.Ctx) {
 					return
 				}
 			}
+			if sc.ping && pings != 1 {
+				vsched.Failf("the PINGREQ was answered %d times", pings)
+				return
+			}
 			vsched.Logf("ok")
 		}
 		// one message per writer: every interleaving; more: preemption-bounded
 		bound := -1
+		if sc.ping {
+			// five threads (receiver, processor, sender, writer, harness): preemption-bounded
+			bound = 2
+		}
 		if sc.writers*sc.each > 2 {
 			bound = 2
 			if c.Thorough() {
